@@ -491,6 +491,17 @@ fn apply(ctx: &Ctx, addr: std::net::SocketAddr, f: &Fault, cn: &Cn, case: &Value
             observed: json!({"responses_before": a.responses.iter().map(|r| r.status).collect::<Vec<_>>(), "received_bytes": a.raw_len}),
         });
     }
+    // an oversized body (server limit 4096 here) is never accepted, however it is framed
+    if f.class.starts_with("body_over_limit") {
+        if let Some(r) = a.responses.iter().find(|r| r.status >= 200 && r.status < 400) {
+            ctx.report(Violation {
+                sig: json!({"kind":"oversized_body_accepted","class": f.class, "status": r.status}),
+                case: case.clone(),
+                expected: json!({"status": "400-599 (or no response)", "because": "the body exceeds the server's request_body_max_bytes"}),
+                observed: r.to_json(),
+            });
+        }
+    }
     let class = classify(&f.bytes, eof_sent);
     match &class {
         Class::Malformed(why) => {
@@ -593,6 +604,15 @@ fn size_and_framing_faults(tier: Tier) -> Vec<Fault> {
     }
     out.push(Fault { class: "chunk_longer_than_announced".into(), bytes: b"PUT /raw HTTP/1.1\r\nhost: h\r\ntransfer-encoding: chunked\r\n\r\n3\r\nabcdef\r\n0\r\n\r\n".to_vec(), end: rtc.clone(), burst: 0 });
     out.push(Fault { class: "body_over_limit".into(), bytes: request("PUT", "/raw", "", &vec![b'x'; 100_000]), end: rtc.clone(), burst: 0 });
+    // the same without a declared length: one chunk, many chunks, and a body 250 times the limit
+    out.push(Fault { class: "body_over_limit_chunked".into(), bytes: chunked_request("PUT", "/raw", "", &[&vec![b'x'; 5000]]), end: rtc.clone(), burst: 0 });
+    {
+        let piece = vec![b'y'; 1000];
+        let chunks: Vec<&[u8]> = (0..9).map(|_| piece.as_slice()).collect();
+        out.push(Fault { class: "body_over_limit_chunked".into(), bytes: chunked_request("PUT", "/raw", "", &chunks), end: rtc.clone(), burst: 0 });
+        let big = vec![b'z'; 1 << 20];
+        out.push(Fault { class: "body_over_limit_chunked".into(), bytes: chunked_request("PUT", "/raw", "", &[&big]), end: rtc.clone(), burst: 0 });
+    }
     out.push(Fault { class: "zeros_1mb".into(), bytes: vec![0u8; 1 << 20], end: rtc.clone(), burst: 0 });
     out.push(Fault { class: "random_looking_bytes".into(), bytes: (0..4096u32).map(|i| (i.wrapping_mul(2654435761) >> 13) as u8).collect(), end: rtc.clone(), burst: 0 });
     out.push(Fault { class: "h2_preface_garbage".into(), bytes: [b"PRI * HTTP/2.0\r\n\r\nSM\r\n\r\n".as_ref(), &[0xffu8; 64]].concat(), end: rtc.clone(), burst: 0 });
